@@ -31,6 +31,9 @@ CONSTANTS
   TrickyStrs,                      \* string literals whose content looks like something else: a keyword in some letter
                                    \* case, an operator, punctuation, a number, nothing, a comment opener
   QuotedIdents,                    \* identifiers that must be written in double quotes (keywords, blanks inside)
+  UniStrs, UniIdents,              \* string contents / identifiers with characters outside ASCII.  A TLA+ string here
+                                   \* writes such a character as <U+hhhh>; the replayer puts the character (its UTF-8
+                                   \* bytes) in its place, in the tokens and in the expected statement alike.
   VarcharLens, LimVals,            \* integers used in VARCHAR(n) and LIMIT / OFFSET
   BaseTable,                       \* the table used where a clause under study needs "some table"
   \* pools: the subsets that are combined exhaustively where the full product would explode
@@ -325,7 +328,7 @@ SliceNames == {"sel_item_expr", "sel_item_leaf", "sel_item_tree", "sel_items", "
                "sel_group_count", "sel_group_cols", "sel_group_alias", "sel_order", "sel_limit", "sel_combo",
                "ins_cols", "ins_row", "ins_rows", "upd_one", "upd_list", "upd_where_leaf", "upd_where_tree",
                "del_all", "del_leaf", "del_tree", "create_table", "create_database", "use", "show", "given",
-               "str_insert", "str_update", "str_cond", "str_item", "qid"}
+               "str_insert", "str_update", "str_cond", "str_item", "qid", "uni"}
 
 \* A slice is a family of sets indexed by a size (list length, number of leaves; for INSERT
 \* 10 * width + rows): SliceSizes(name) are the sizes within the bounds, Slice(name, n) one member.
@@ -409,6 +412,18 @@ Slice(name, n) ==
                                   \cup {Del(qi, NoC) : qi \in QuotedIdents}
                                   \cup {CreT(qi, <<Def(qj, Ty("INT", 0)), Def(qi, Ty("VARCHAR", ComboLim + 1))>>) : qi \in QuotedIdents, qj \in QuotedIdents}
                                   \cup {CreD(qi) : qi \in QuotedIdents} \cup {UseD(qi) : qi \in QuotedIdents}
+
+    \* characters of 2, 3 and 4 bytes in literals and identifiers
+    [] name = "uni"            -> {Ins(ti, <<ci>>, <<<<StrL(x), IntL(ComboLim), StrL(y)>>, <<StrL(y), StrL(x), PlainStr>>>>) :
+                                      ti \in UniIdents, ci \in UniIdents, x \in UniStrs, y \in UniStrs}
+                                  \cup {Upd(ti, <<Asg(ci, StrL(x))>>, <<Cmp("=", Col(ti, ci), StrL(y))>>) :
+                                      ti \in UniIdents, ci \in UniIdents, x \in UniStrs, y \in UniStrs}
+                                  \cup {Sel(<<Item(StrL(x), ci), Item(Col("", ci), "")>>, <<Tbl(ti, ci)>>, NoC,
+                                          <<OrN(Cmp("!=", StrL(x), Col(ci, ti)), Cmp("<", Col("", ci), StrL(y)))>>, NoC,
+                                          <<Ord(Col("", ci), "DESC")>>, NoC, NoC) :
+                                      ti \in UniIdents, ci \in UniIdents, x \in UniStrs, y \in UniStrs}
+                                  \cup {Del(ti, <<Cmp("=", StrL(x), StrL(y))>>) : ti \in UniIdents, x \in UniStrs, y \in UniStrs}
+                                  \cup {CreT(ti, <<Def(ci, Ty("INT", 0))>>) : ti \in UniIdents, ci \in UniIdents}
 
 \* membership in the universe a configuration works with
 InUniverse(names, s) == StmtWF(s) /\ \E nm \in names : \E n \in SliceSizes(nm) : s \in Slice(nm, n)
